@@ -8,8 +8,11 @@ package hash
 // ops:          add <node> | addr <node> <replicas> | addw <node> <weight> | remove <node> | get <key>
 //               gadd|gaddr|gaddw <node t:/p:> …   the same operation through a gated Stringer (see c15Gate)
 //               storm <readers> <gets> <key,…> <op_arg_arg;op_arg;…>   free-running readers against a writer
-// node / key:   <kind>:<repr>   kind s=string i=int j=int64 t=fmt.Stringer (struct) p=*Stringer u=uint64 o=bool
-//               e=error (value receiver) x=errors.New (repr "{msg}") f=float64 g=float32 b=[]byte z=nil   (repr = lang.Repr of the value)
+//               repr <v,v,…>   lang.Repr of every value (hex), no ring involved
+// node / key:   <kind>:<text of the VALUE>  (never computed through lang.Repr: the model computes the repr itself)
+//               s=string i=int a=int8 h=int16 w=int32 j=int64 n=uint c=uint8 k=uint16 m=uint32 u=uint64 o=bool
+//               e=error (value receiver) x=errors.New(text) q=error+Stringer t=fmt.Stringer (struct) p=*Stringer
+//               f=float64 g=float32 (text = 'f',-1 rendering) b=[]byte z=nil d=named int r=*int y=(*int)(nil)
 // observation:  mutating op:  nk=<len keys> nr=<len ring> nn=<len nodes> ck=<digest keys> rk=<digest ring>
 //                             g=<Get of every probe on the instance> f=<Get of every probe on a fresh
 //                             instance built from the current membership in repr order>
@@ -56,6 +59,15 @@ type c15Err struct{ s string }
 
 func (e c15Err) Error() string { return e.s }
 
+// c15Both is an error AND a Stringer: lang.Repr asks Stringer first, fmt's %v asks error first
+type c15Both struct{ s string }
+
+func (e c15Both) Error() string  { return "E!" + e.s }
+func (e c15Both) String() string { return e.s }
+
+// c15Named reaches the default case of reprOfValue (fmt.Sprint)
+type c15Named int
+
 type c15Stringer struct {
 	s string
 	g *c15Gate
@@ -89,19 +101,52 @@ func c15GatedValue(tok string, g *c15Gate) any {
 		return c15Stringer{r, g}
 	case "p":
 		return &c15PtrStringer{r, g}
-	case "u":
-		v, err := strconv.ParseUint(r, 10, 64)
+	case "a", "h", "w", "d", "r":
+		bits := map[string]int{"a": 8, "h": 16, "w": 32, "d": 64, "r": 64}[kind]
+		v, err := strconv.ParseInt(r, 10, bits)
+		if err != nil {
+			panic("verif: bad int " + tok)
+		}
+		switch kind {
+		case "a":
+			return int8(v)
+		case "h":
+			return int16(v)
+		case "w":
+			return int32(v)
+		case "d":
+			return c15Named(v)
+		}
+		x := int(v)
+		return &x
+	case "u", "n", "c", "k", "m":
+		bits := map[string]int{"u": 64, "n": 64, "c": 8, "k": 16, "m": 32}[kind]
+		v, err := strconv.ParseUint(r, 10, bits)
 		if err != nil {
 			panic("verif: bad uint " + tok)
 		}
+		switch kind {
+		case "n":
+			return uint(v)
+		case "c":
+			return uint8(v)
+		case "k":
+			return uint16(v)
+		case "m":
+			return uint32(v)
+		}
 		return v
+	case "q":
+		return c15Both{r}
+	case "y":
+		return (*int)(nil)
 	case "o":
 		return r == "true"
 	case "e":
 		return c15Err{r}
 	case "x":
 		// errors.New: lang.Repr dereferences the pointer and prints the struct, "{msg}"; %v prints msg
-		return errors.New(strings.TrimSuffix(strings.TrimPrefix(r, "{"), "}"))
+		return errors.New(r)
 	case "f":
 		v, err := strconv.ParseFloat(r, 64)
 		if err != nil {
@@ -136,12 +181,35 @@ func c15Token(v any) string {
 		return "p:" + x.s
 	case uint64:
 		return "u:" + strconv.FormatUint(x, 10)
+	case int8:
+		return "a:" + strconv.FormatInt(int64(x), 10)
+	case int16:
+		return "h:" + strconv.FormatInt(int64(x), 10)
+	case int32:
+		return "w:" + strconv.FormatInt(int64(x), 10)
+	case uint:
+		return "n:" + strconv.FormatUint(uint64(x), 10)
+	case uint8:
+		return "c:" + strconv.FormatUint(uint64(x), 10)
+	case uint16:
+		return "k:" + strconv.FormatUint(uint64(x), 10)
+	case uint32:
+		return "m:" + strconv.FormatUint(uint64(x), 10)
+	case c15Named:
+		return "d:" + strconv.FormatInt(int64(x), 10)
+	case *int:
+		if x == nil {
+			return "y:"
+		}
+		return "r:" + strconv.FormatInt(int64(*x), 10)
+	case c15Both:
+		return "q:" + x.s
 	case bool:
 		return "o:" + strconv.FormatBool(x)
 	case c15Err:
 		return "e:" + x.s
 	case error:
-		return "x:{" + x.Error() + "}"
+		return "x:" + x.Error()
 	case float64:
 		return "f:" + strconv.FormatFloat(x, 'f', -1, 64)
 	case float32:
@@ -152,6 +220,27 @@ func c15Token(v any) string {
 		return "z:"
 	}
 	return fmt.Sprintf("?:%v", v)
+}
+
+// c15Slot is the harness's OWN notion of which ring slot a value token occupies (what the property calls "the
+// node"): computed from the token text, never through core/lang, so that a lang.Repr that aliases two different
+// values shows up as a difference between the live ring and the ring rebuilt from the membership.
+func c15Slot(tok string) string {
+	kind, r := tok[:strings.IndexByte(tok, ':')], tok[strings.IndexByte(tok, ':')+1:]
+	switch kind {
+	case "x":
+		return "{" + r + "}"
+	case "y":
+		return "<nil>"
+	}
+	return r
+}
+
+func c15Hex(s string) string {
+	if s == "" {
+		return "-"
+	}
+	return fmt.Sprintf("%x", s)
 }
 
 func c15Fnv(data []byte) uint64 {
@@ -245,7 +334,9 @@ var (
 		"t:10.0.0.7:6379", "t:10.0.0.7:63791", "p:10.0.0.7:6379", "p:10.0.0.8:6379", "t:node", "p:node", "t:node1", "p:n",
 		// values whose %v differs from their Repr, and the remaining Repr cases
 		"f:1.5", "f:1000000", "f:0.00001", "f:100000", "f:-2.5", "f:1", "g:0.1", "g:16777216", "b:hi", "b:node1",
-		"b:", "u:11", "u:1", "o:true", "e:boom", "e:node", "x:{node}", "z:",
+		"b:", "u:11", "u:1", "o:true", "e:boom", "e:node", "x:node", "z:",
+		// the remaining cases of reprOfValue's switch and what reaches its default
+		"a:-5", "h:11", "w:-1", "n:11", "c:1", "k:12", "m:111", "d:11", "d:-5", "r:1", "r:11", "y:", "q:node", "q:n1", "s:<nil>", "s:{node}",
 	}
 	c15Replicas = []int{0, 1, 2, 5, 10, 11, 12, 20, 50, 99, 100, 101, 110, 150, -1, -100}
 	c15Weights  = []int{0, 1, 9, 10, 11, 50, 80, 99, 100, 101, 150, 200, -5,
@@ -257,7 +348,7 @@ var (
 		"f:1.5", "f:1000000", "f:999999", "f:0.0001", "f:0.00001", "f:123456789.125", "f:-1000000", "f:0", "f:-0",
 		"f:NaN", "f:+Inf", "f:-Inf", "f:100000000000000000000", "f:0.000001234", "f:12345678", "f:0.5",
 		"g:0.1", "g:16777216", "g:340282350000000000000000000000000000000", "g:1000000", "g:0.000011",
-		"b:hi", "b:", "b:key7", "b:0", "u:18446744073709551615", "u:7", "o:true", "o:false", "e:boom", "x:{boom}", "z:",
+		"b:hi", "b:", "b:key7", "b:0", "u:18446744073709551615", "u:7", "o:true", "o:false", "e:boom", "x:boom", "z:", "q:boom", "y:", "a:-128", "c:255", "d:7", "j:-9223372036854775808", "n:18446744073709551615",
 	}
 )
 
@@ -279,9 +370,109 @@ func c15Fixed() []verifh.Section {
 		{Cfg: odd, Ops: []string{"add s:a", "add s:b", "add f:1000000", "add b:hi", "addw z: 50", "remove f:1000000", "get f:0.00001", "get b:hi", "get z:"}},
 		// a single node re-weighted through the gate: readers see an empty ring in between
 		{Cfg: cfg, Ops: []string{"gadd t:10.0.0.7:6379", "gaddw t:10.0.0.7:6379 50", "gadd p:10.0.0.7:63791", "gaddr t:10.0.0.7:6379 20", "remove s:10.0.0.7:6379"}},
+		// the ends of the integer kinds in one ring: no value evicts or removes another (they differ as numbers)
+		{Cfg: cfg, Ops: []string{"repr " + strings.Join(c15Extremes, ","),
+			"add u:18446744073709551615", "add i:-1", "remove u:18446744073709551615", "add j:-9223372036854775808",
+			"add u:9223372036854775808", "remove j:-9223372036854775808", "addr c:255 7", "addr a:-1 3", "remove c:255",
+			"add f:NaN", "add f:-Inf", "add y:", "add z:", "add q:boom", "add x:boom", "add d:255", "remove r:255", "get i:3"}},
+		{Cfg: odd, Ops: []string{"add m:4294967295", "add w:-1", "add k:65535", "add h:-1", "add f:+Inf", "add b:-1", "remove s:-1",
+			"addw n:18446744073709551615 50", "remove i:-1", "get q:boom", "get y:"}},
 		// weight overflow on the default ring
 		{Cfg: cfg, Ops: []string{"addw s:a 92233720368547759", "addw s:b 184467440737095517", "addw s:c 9223372036854775807", "addw s:d 200"}},
 	}
+}
+
+// c15IntKinds: kind letter, bit width, signed
+var c15IntKinds = []struct {
+	k      string
+	bits   uint
+	signed bool
+}{{"a", 8, true}, {"h", 16, true}, {"w", 32, true}, {"j", 64, true}, {"i", 64, true}, {"d", 64, true}, {"r", 64, true},
+	{"c", 8, false}, {"k", 16, false}, {"m", 32, false}, {"u", 64, false}, {"n", 64, false}}
+
+// c15Twins: a family of numeric values of EVERY integer kind around one two's-complement boundary: for a width
+// b and an offset, the unsigned value U (2^b-1, 2^(b-1), …) in every kind that holds it and its signed
+// reinterpretation U-2^b in every kind that holds that. A Repr that confuses signedness, width or base makes two
+// members of such a family share a ring slot. Also the same numbers as strings / bytes (same slot BY DESIGN).
+func c15Twins(r *verifh.Rng) []string {
+	b := []uint{8, 16, 32, 64}[r.Intn(4)]
+	var u uint64
+	switch r.Intn(5) {
+	case 0:
+		u = 1<<b - 1 // all ones: -1
+	case 1:
+		u = 1 << (b - 1) // the minimum of the signed type
+	case 2:
+		u = 1<<(b-1) + 1
+	case 3:
+		u = 1<<b - 2
+	default:
+		u = 1<<(b-1) - 1 // the maximum of the signed type: no negative twin at this width, but at the smaller ones
+	}
+	if b == 64 {
+		switch {
+		case u == 0: // 1<<64 wrapped
+			u = ^uint64(0)
+		}
+	}
+	var neg int64
+	hasNeg := u>>(b-1)&1 == 1
+	if hasNeg {
+		if b == 64 {
+			neg = int64(u)
+		} else {
+			neg = int64(u) - int64(1)<<b
+		}
+	}
+	var fam []string
+	for _, k := range c15IntKinds {
+		if k.signed {
+			if k.bits == 64 && u < 1<<63 || k.bits < 64 && u < 1<<(k.bits-1) {
+				fam = append(fam, k.k+":"+strconv.FormatUint(u, 10))
+			}
+			if hasNeg && (k.bits == 64 || neg >= -(int64(1)<<(k.bits-1))) {
+				fam = append(fam, k.k+":"+strconv.FormatInt(neg, 10))
+			}
+		} else if k.bits == 64 || u < 1<<k.bits {
+			fam = append(fam, k.k+":"+strconv.FormatUint(u, 10))
+		}
+	}
+	fam = append(fam, "s:"+strconv.FormatUint(u, 10), "f:"+strconv.FormatFloat(float64(u), 'f', -1, 64))
+	if hasNeg {
+		fam = append(fam, "s:"+strconv.FormatInt(neg, 10), "b:"+strconv.FormatInt(neg, 10))
+	}
+	// pick 2..6, the first two of different sign/kind where possible
+	n := r.Range(2, 6)
+	pop := make([]string, 0, n+1)
+	for j := 0; j < n; j++ {
+		pop = append(pop, fam[r.Intn(len(fam))])
+	}
+	if r.Chance(1, 2) {
+		pop = append(pop, c15Names[r.Intn(len(c15Names))])
+	}
+	return pop
+}
+
+// c15Extremes: values at the ends of every kind, float specials, the odd kinds — for the `repr` operation
+var c15Extremes = []string{
+	"u:18446744073709551615", "u:9223372036854775808", "u:9223372036854775807", "u:0", "n:18446744073709551615",
+	"j:-9223372036854775808", "j:9223372036854775807", "j:-1", "i:-9223372036854775808", "i:-1", "i:0", "i:9223372036854775807",
+	"a:-128", "a:127", "a:-1", "c:255", "c:128", "h:-32768", "h:32767", "k:65535", "k:32768", "w:-2147483648",
+	"w:2147483647", "m:4294967295", "m:2147483648", "d:-1", "d:255", "r:-1", "r:65535", "y:", "z:", "s:", "s:-1",
+	"s:<nil>", "s:255", "b:-1", "b:", "o:true", "o:false", "s:true", "e:-1", "x:-1", "s:{-1}", "q:-1", "t:-1", "p:255",
+	"f:NaN", "f:+Inf", "f:-Inf", "f:-0", "f:0", "f:18446744073709552000", "f:-1", "g:-1", "g:255", "g:+Inf", 
+	"f:0.0000001", "f:255", "f:9223372036854776000",
+}
+
+func c15ReprOp(r *verifh.Rng, pop []string) string {
+	vals := append([]string{}, pop...)
+	for j := r.Range(4, 12); j > 0; j-- {
+		vals = append(vals, c15Extremes[r.Intn(len(c15Extremes))])
+	}
+	for j := r.Range(0, 3); j > 0; j-- {
+		vals = append(vals, c15Twins(r)...)
+	}
+	return "repr " + strings.Join(vals, ",")
 }
 
 func c15Probes(r *verifh.Rng, nprobe int) []string {
@@ -383,13 +574,19 @@ func c15Gen(r *verifh.Rng) []verifh.Section {
 	// consecutive seeds of verifh.NewRng are one draw apart on the same stream: fork for independent streams
 	r = r.Fork()
 	secs := c15Fixed()
-	nsec := verifh.Scale(80, 1500)
+	nsec := verifh.Scale(80, 800)
 	for i := 0; i < nsec; i++ {
 		cfg := c15Cfg(r)
 		cfg += " probes=" + strings.Join(c15Probes(r, verifh.Scale(64, 96)), ",")
 		pop := c15Pop(r)
+		if r.Chance(1, 4) {
+			pop = c15Twins(r)
+		}
 		var present []string
 		ops := c15Ops(r, pop, r.Range(3, verifh.Scale(16, 36)), &present, " ", true)
+		if r.Chance(1, 3) {
+			ops = append([]string{c15ReprOp(r, pop)}, ops...)
+		}
 		secs = append(secs, verifh.Section{Cfg: cfg, Ops: ops})
 	}
 	return secs
@@ -407,7 +604,11 @@ func c15GenRace(r *verifh.Rng) []verifh.Section {
 		probes := c15Probes(r, 24)
 		cfg += " probes=" + strings.Join(probes, ",")
 		var pop []string
-		for _, n := range c15Pop(r) {
+		base := c15Pop(r)
+		if r.Chance(1, 4) {
+			base = c15Twins(r)
+		}
+		for _, n := range base {
 			if !strings.ContainsAny(n, "_;") {
 				pop = append(pop, n)
 			}
@@ -571,7 +772,7 @@ func c15StartCfg(t *testing.T, cfg verifh.Cfg) (func(op []string) string, func()
 	// current membership as the last add operation per repr (derived from the op text only)
 	last := map[string][]string{}
 	track := func(op []string) {
-		r := repr(c15Value(op[1]))
+		r := c15Slot(op[1])
 		if op[0] == "remove" {
 			delete(last, r)
 		} else {
@@ -600,6 +801,13 @@ func c15StartCfg(t *testing.T, cfg verifh.Cfg) (func(op []string) string, func()
 	step := func(op []string) string {
 		if len(op) == 2 && op[0] == "get" {
 			return c15Get(h, c15Value(op[1]))
+		}
+		if len(op) == 2 && op[0] == "repr" {
+			var out []string
+			for _, tok := range strings.Split(op[1], ",") {
+				out = append(out, c15Hex(repr(c15Value(tok))))
+			}
+			return strings.Join(out, ",")
 		}
 		if len(op) == 5 && op[0] == "storm" {
 			var keys []any
